@@ -396,6 +396,30 @@ func c08New(c *fw.Case) {
 			expectErr(fmt.Sprintf("enum-undeclared value %q in a column declared over %q (encoding %d, only column: %v)", outside, declared, enc, alone), bad)
 		}
 	}
+	// (d'') a declared enum value list with more values than an enum can hold (256, 257, 300)
+	{
+		bad := clone()
+		nvals := []int{256, 256, 257, 300}[rng.Intn(4)]
+		vals := make([]string, nvals)
+		for i := range vals {
+			vals[i] = fmt.Sprintf("v%03d", i)
+		}
+		name := "enum-with-too-many-declared-values"
+		n := rows
+		cells := make([]*string, n)
+		for i := range cells {
+			cells[i] = model.StrP(vals[[]int{0, 254, 255, nvals - 1}[rng.Intn(4)]])
+		}
+		bad.data[name] = cells
+		if bad.enums == nil {
+			bad.enums = map[string][]string{}
+		}
+		bad.enums[name] = vals
+		if bad.order != nil {
+			bad.order = append(bad.order, name)
+		}
+		expectErr(fmt.Sprintf("enum-declared list of %d values", nvals), bad)
+	}
 	// (e) unsupported data type
 	{
 		bad := clone()
